@@ -452,7 +452,7 @@ func (e *c10Env) judge(r *core.Run, s C10Scn, c C10Case, rec []sysx.Call) {
 	// (2) finished runs
 	tmpLeft := ""
 	for n := range st {
-		if (strings.HasSuffix(n, ".compress") || strings.HasSuffix(n, ".decompress")) && s.initial(n) == nil {
+		if n != s.Input && n != s.Target && s.initial(n) == nil && c10Role(s, sysx.Call{Path: n}) == "temp" {
 			tmpLeft = n
 		}
 	}
@@ -569,6 +569,18 @@ func c10Role(s C10Scn, c sysx.Call) string {
 			return "target"
 		case strings.HasSuffix(p, ".compress") || strings.HasSuffix(p, ".decompress"):
 			return "temp"
+		case p == "." || p == ".." || strings.HasSuffix(p, "/"):
+			return "other"
+		}
+		for _, x := range s.Extra {
+			if x == p {
+				return "other"
+			}
+		}
+		if s.initial(p) == nil {
+			// a name the run invented (neither input, target nor a file that was there before): its
+			// temporary file, whatever the naming scheme
+			return "temp"
 		}
 		return "other"
 	}
@@ -630,10 +642,12 @@ func runC10(r *core.Run) {
 		}
 		rec1, _, _ := env.run(s, C10Case{Scenario: s.Name, Mode: "record"})
 		rec2, _, _ := env.run(s, C10Case{Scenario: s.Name, Mode: "record"})
+		// the two recordings must agree in the sequence of (call, role of its paths); invented names
+		// (a temporary file with a random suffix) are compared by their role, not by their spelling
 		sig := func(cs []sysx.Call) string {
 			var p []string
 			for _, c := range cs {
-				p = append(p, c.String())
+				p = append(p, c.Kind()+"("+c10Role(s, c)+")")
 			}
 			return strings.Join(p, ";")
 		}
